@@ -10,6 +10,7 @@ import IclModel.Spec.Layouts
 import IclModel.Gen.Rules
 import IclModel.Spec.Rules
 import IclModel.TreeWire
+import IclModel.Build
 import IclModel.Gen.Cp037
 import IclModel.Gen.Split
 open Icl Icl.Wire
@@ -103,6 +104,20 @@ def handle (line : String) : String :=
     let sc := if sched == "-" then [] else (sched.splitOn ",").map parseNat
     let (f, e) := readFileScan m { lp := lp == "1", ebcdic := ebc == "1" } Gen.splitLP (parseNat max) sc (fromHex h)
     dumpErr e ++ " # " ++ dumpTree m f
+  | ["build", now, tree] =>
+    let m := theModel false (parseDateArg now)
+    match buildAll m (parseTree tree) with
+    | .ok f => "ok # " ++ dumpTree m f
+    | .error _ => "error"
+  | ["buildcl", now, tree] =>
+    let m := theModel false (parseDateArg now)
+    let f := parseTree tree
+    match f.cashLetters with
+    | [cl] =>
+      match cashLetterCreate m cl with
+      | .ok c => "ok # " ++ dumpTree m { f with cashLetters := [c] }
+      | .error _ => "error"
+    | _ => "bad-tree"
   | ["ebcenc", h] => match (Charmap.encode { dec := Gen.cp037Dec, repl := Gen.cp037Repl } (fromHex h)) with
     | some b => toHex b
     | none => "error"
